@@ -203,7 +203,7 @@ impl Prop for C05 {
     fn meta(&self) -> Meta {
         Meta {
             level: "exploration",
-            rule: "files from the C01 generator (crate writer, knob on) and from the C03 producer (all layouts incl. packets that complete no point); per point cloud a drawn subset of the 64 option vectors (always the default vector, 3 more in quick; all 64 in thorough for clouds <= 500 points); raw and simple iteration on one E57Reader<SimDisk> with seeded short reads; every third run with an unsealed bit flip in a section page. Oracle: same count and order as the raw iterator; each point = reference view (written from the doc comments and the property text) of the raw point and the metadata the reader reports: validity states from the invalid-state attributes, scaled integers value*scale+offset, colour/intensity absent iff flagged or not stored, row/column default -1, spherical->Cartesian only when no valid Cartesian, Cartesian->spherical only for non-valid spherical, intensity->grey only without colour, pose (rotation then translation) on valid Cartesian only; computed coordinates compared with 1e-11 relative tolerance on the input magnitude (NaN = NaN, extremes only by state); normalised values (switch on) = (value - min) / (max - min) clamped to [0,1] with the cloud's limits when both are given as a pair of one numeric kind, else the record's type range, within 2e-6; not judged for non-finite values and for degenerate, reversed, non-finite or mixed-kind ranges (C13's corner cases). One point in 64 has special values all at once (every float NaN / inf / -0 / max, every integer at a limit); poses include rotations of 1e-9..1e-3 rad. Producer files with flag 32 carry what the crate's writer cannot store: wider invalid-state types, stored states outside the set, bit patterns above a record's declared maximum with limits covering them. The simple iterator may fail only if the raw iterator fails on the same bytes or a stored invalid-state lies outside its set. Distinct = hash(option vector, prototype names and type kinds, pose present, count class, damaged, source); non-trivial = at least one point yielded".into(),
+            rule: "files from the C01 generator (crate writer, knob on) and from the C03 producer (all layouts incl. packets that complete no point); per point cloud a drawn subset of the 64 option vectors (always the default vector, 3 more in quick; all 64 in thorough for clouds <= 500 points); raw and simple iteration on one E57Reader<SimDisk> with seeded short reads; every third run with an unsealed bit flip in a section page. Oracle: same count and order as the raw iterator; each point = reference view (written from the doc comments and the property text) of the raw point and the metadata the reader reports: validity states from the invalid-state attributes, scaled integers value*scale+offset, colour/intensity absent iff flagged or not stored, row/column default -1, spherical->Cartesian only when no valid Cartesian, Cartesian->spherical only for non-valid spherical, intensity->grey only without colour, pose (rotation then translation) on valid Cartesian only; computed coordinates compared with 1e-11 relative tolerance on the input magnitude (NaN = NaN, extremes only by state); normalised values (switch on) = (value - min) / (max - min) clamped to [0,1] with the cloud's limits when both are given as a pair of one numeric kind, else the record's type range, within 2e-6; not judged for non-finite values and for degenerate, reversed, non-finite or mixed-kind ranges (C13's corner cases). One point in 64 has special values all at once (every float NaN / inf / -0 / max, every integer at a limit); poses include rotations of 1e-9..1e-3 rad. Sloppy foreign scenes also have constant (zero-width) state records. Producer files with flag 32 carry what the crate's writer cannot store: wider invalid-state types, stored states outside the set, bit patterns above a record's declared maximum with limits covering them. The simple iterator may fail only if the raw iterator fails on the same bytes or a stored invalid-state lies outside its set. Distinct = hash(option vector, prototype names and type kinds, pose present, count class, damaged, source); non-trivial = at least one point yielded".into(),
             assumptions: vec![
                 "invalid-state, row and column attributes have integer type (what the writer's rules demand)".into(),
                 "colour/intensity limits, where given, are ordered".into(),
